@@ -619,10 +619,10 @@ class IdentityMapper(Mapper):
     def map_common_subexpression(self, expr, *args, **kwargs):
         from pymbolic.primitives import is_zero
         result = self.rec(expr.child, *args, **kwargs)
-        if is_zero(result):
-            return 0
         if result is expr.child:
             return expr
+        if is_zero(result):
+            return 0
 
         return type(expr)(
                 result,
